@@ -189,7 +189,8 @@ class ConstantStreamGenerator(Elaboratable):
         start_position = Signal.like(position_in_stream)
 
         # If our starting position is greater than our data length, use our data length.
-        with m.If(self.start_position >= self._data_length):
+        # (Positions count stream words; which aren't bytes if we have a multi-byte data width.)
+        with m.If(self.start_position >= data_length):
             m.d.comb += start_position.eq(data_length - 1)
 
         # Otherwise, use our starting position.
@@ -225,7 +226,7 @@ class ConstantStreamGenerator(Elaboratable):
                     position_in_stream  .eq(start_position),
                     bytes_sent          .eq(0)
                 ]
-                past_the_end = (self.start_position >= self._data_length)
+                past_the_end = (self.start_position >= data_length)
                 m.d.comb += [
                     rom_read_port.addr  .eq(start_position),
                 ]
